@@ -13,9 +13,10 @@ Direction `zfo = true` (zero-for-one): token0 in, token1 out, the price falls; `
 tick adds its net liquidity going up and subtracts it going down.
 
 `idealOut zfo ahead K P x` : exact amount out for the amount in `x` (net of the spread factor), starting at `P` in a bucket
-                             of liquidity `K`;
-`idealIn  zfo ahead K P y` : exact amount in needed for the amount out `y`.
-After the last tick the current bucket extends without bound.
+                             of liquidity `K`.
+After the last tick the current bucket extends without bound.  `idealOut` is monotone in `x` on well-formed walks
+(`idealOut_mono`), so the ideal amount IN for an amount out `y` is its generalised inverse: `x` is at least the ideal amount in
+for `y` iff `idealOut … x ≥ y`; the exact-out theorems of Props/C03Ideal.lean are stated in that form.
 -/
 import Mathlib.Tactic.Linarith
 import Mathlib.Tactic.Ring
